@@ -547,6 +547,13 @@ func fieldOptsOverride(opts *options, fieldName string, idx int) (*options, Erro
 			newOpts.fieldHandlingTree = child
 			opts = &newOpts
 		}
+		// A dictionary key without an entry ends the matching of the names
+		// configured for this level, so they do not match again at another depth.
+		if child == nil && idx < 0 && fieldName != "*" {
+			newOpts := *opts
+			newOpts.fieldHandlingTree = nil
+			opts = &newOpts
+		}
 		return opts, nil
 	}
 	// Only return a new `options` if absolutely required.
